@@ -35,6 +35,9 @@ def main():
         rc, out = sh('git -C /repo worktree add -f %s HEAD' % WT)
         assert rc == 0, out
     sh('git checkout -- . && git clean -fdq', cwd=WT)
+    # the scratch worktree follows /repo's HEAD (it may have been created before a fix commit)
+    rc, out = sh('git checkout -q --detach $(git -C /repo rev-parse HEAD)', cwd=WT)
+    assert rc == 0, out
     mode, rel = placement.split(':', 1)
     demo_text = open(demo).read()
 
@@ -68,6 +71,9 @@ def main():
     log.append({'cmd': demo_cmd, 'tree': 'changed + demo', 'rc': rc, 'tail': out[-900:]})
     # 3. existing tests with the change (demo removed again)
     sh('git checkout -- . && git clean -fdq', cwd=WT)
+    # the scratch worktree follows /repo's HEAD (it may have been created before a fix commit)
+    rc, out = sh('git checkout -q --detach $(git -C /repo rev-parse HEAD)', cwd=WT)
+    assert rc == 0, out
     rc, out = sh('git apply %s' % os.path.abspath(diff), cwd=WT)
     suite_ok = True
     rc, out = sh('cargo check --workspace --all-targets --offline', cwd=WT)
@@ -80,6 +86,9 @@ def main():
         log.append({'cmd': cmd, 'tree': 'changed', 'rc': rc, 'results': res})
         suite_ok = suite_ok and rc == 0
     sh('git checkout -- . && git clean -fdq', cwd=WT)
+    # the scratch worktree follows /repo's HEAD (it may have been created before a fix commit)
+    rc, out = sh('git checkout -q --detach $(git -C /repo rev-parse HEAD)', cwd=WT)
+    assert rc == 0, out
     confirmed = ok_without and fails_with and suite_ok
     print('demo passes without change:', ok_without, '| demo fails with change:', fails_with, '| existing tests pass with change:', suite_ok)
     # 4. our check against the change, on /repo itself
